@@ -8,7 +8,7 @@ from mc.core import viol
 
 ID = 'C08'
 LEVEL = 'model_checking'
-CHUNK = 20
+CHUNK = 4
 RULE = ('the real Equalizer (run_comparison, worker loop, timeout / kill / recycle code) on virtual multiprocessing and virtual time: every '
         'behaviour vector over {equal, different, player raises, extractor raises, comparator raises, bare status, worker exits, hangs, '
         'answers just after the parent gave up, hangs trapping SIGTERM, replay spawning a child process} up to the length bound x recycle '
@@ -34,6 +34,8 @@ def gen_cases(tier, seed):
     for n in range(1, full + 1):
         for vec in itertools.product(B, repeat=n):
             for ci in range(len(CONFIGS)):
+                if tier == 'quick' and n == 2 and CONFIGS[ci]['keep'] and CONFIGS[ci]['recycle'] != 2:
+                    continue   # quick: keep-results only matters in the parent's re-extraction; one recycle rate suffices at length 2
                 yield {'vec': list(vec), 'cfg': ci, 'bound': 2, 'mode': 'dedicated'}
     n = full + 1
     # the longest vectors use one representative of the behaviours that never touch the worker protocol differently
